@@ -144,7 +144,7 @@ def _install():
     def apply_result(s, st, fr, dest, ret_bb, res):
         if isinstance(res, _Ev):
             st.log(res.e)
-            return apply_result(s, st, fr, dest, ret_bb, res.v)
+            return s.apply_result(st, fr, dest, ret_bb, res.v)
         return orig(s, st, fr, dest, ret_bb, res)
     Executor.apply_result = apply_result
 
